@@ -136,6 +136,8 @@ def impl_check_strings(fc, A, E, o, apath=None, create_temporaries=False):
                              create_temporaries=create_temporaries, **kw)
     except RecursionError:
         return dict(verdict='diverge', recon=None, msgs=None)
+    except Exception as e:       # noqa: a comparison has to give a verdict
+        return dict(verdict='raised %s: %s' % (type(e).__name__, str(e)[:120]), recon=None, msgs=None)
     recs = r.diffs.reconstructions
     recon = (list(recs[-1].diff_actual), list(recs[-1].diff_expected)) if recs else None
     return dict(verdict='pass' if r.failures == 0 else 'fail', recon=recon, msgs=r.diffs)
